@@ -21,9 +21,16 @@ def S(name, quick, thorough, **kw):
 
 
 PROPS = {
-    'C05': dict(
-        modules=['NutsProofs.Props.C05'],
-        suites=[S('list-ds', (150, 40), (4000, 60))],
-        assumptions=['lists shorter than 2^62 elements'],
-    ),
+    'C01': dict(modules=['NutsProofs.Props.C01'], suites=[S('db-kv', (60, 150), (1500, 200))]),
+    'C03': dict(modules=['NutsProofs.Props.C03'], suites=[S('db-kv', (60, 150), (1500, 200))]),
+    'C04': dict(modules=['NutsProofs.Props.C04'], suites=[S('db-iso', (60, 150), (1500, 200))]),
+    'C05': dict(modules=['NutsProofs.Props.C05'],
+                suites=[S('list-ds', (150, 40), (4000, 60)), S('db-list', (50, 150), (1000, 200))],
+                assumptions=['lists shorter than 2^62 elements']),
+    'C06': dict(modules=['NutsProofs.Props.C06'], suites=[S('db-set', (60, 150), (1500, 200))]),
+    'C07': dict(modules=['NutsProofs.Props.C07'], suites=[S('db-zset', (60, 150), (1500, 200))]),
+    'C08': dict(modules=['NutsProofs.Props.C08'], suites=[S('db-mixed', (60, 200), (1500, 250))]),
+    'C12': dict(modules=['NutsProofs.Props.C12'], suites=[S('db-mixed', (60, 150), (1500, 200))]),
+    'C13': dict(modules=['NutsProofs.Props.C13'], suites=[S('db-structs', (60, 150), (1500, 200))]),
+    'C15': dict(modules=['NutsProofs.Props.C15'], suites=[S('db-merge', (60, 150), (1500, 200))]),
 }
